@@ -18,7 +18,7 @@ SCOPE = ('move_obstacles and teleport with every rng draw a symbolic variable co
          'universal part is asserted on every path; the possibility part (every free neighbour / every partner telepod can occur) is '
          'decided by feasibility: the set of outcomes over all explored, solver-satisfiable paths must equal the oracle set')
 BOUNDS = {
-    'quick': dict(move_obstacles='every layout over {Floor, MovingObstacle, Wall, Exit} of 1x1,1x2,2x1,1x3,3x1,2x2,1x4,4x1 and over '
+    'quick': dict(shared_objects='1x3 and 2x2 grids in which one Telepod object occupies two or more cells', move_obstacles='every layout over {Floor, MovingObstacle, Wall, Exit} of 1x1,1x2,2x1,1x3,3x1,2x2,1x4,4x1 and over '
                   '{Floor, MovingObstacle, Wall} of 2x3, 3x2; 3x3 over {Floor, Wall, MovingObstacle} with at most 1 obstacle; every outcome of every draw; '
                   'all 8 actions x 4 headings on shapes with <=4 cells, one action/heading beyond (the function never reads them)',
                   teleport='every layout over {Floor, Wall, Telepod(RED), Telepod(BLUE)} of shapes with <=6 cells and 3x3 over {Floor, Telepod(RED)} with <=3 telepods; '
